@@ -645,6 +645,65 @@ def secretly_rational(rng):
     return ev(rng, n, p, toks)
 
 
+ZERO_TOKENS = ["z:0", "z:0", "q:0/1", "d:0/0",                      # integer / rational / dyadic zero
+               "r:0,1:0", "r:0,3:0", "r:0,0,1:0",                    # x, 3x, x^2: root isolation gives the algebraic point 0
+               "r:0,-2,0,1:1", "r:0,1,1:1", "r:0,-1,1:0", "r:0,-3,0,2:1"]   # x(x^2-2), x(x+1), x(x-1), x(2x^2-3): 0 among other roots
+# non-zero values of both signs and every representation (rationals held as algebraic numbers included)
+NONZERO_NEG = ["z:-1", "z:-3", "q:-2/3", "q:-7/5", "d:-1/1", "d:-5/2", "r:-2,0,1:0", "r:-3,0,1:0", "r:-1,-1,1:0", "r:-2,0,0,1:0" ,
+               "a:2,3:-1/0:0/0", "a:7,5:-2/0:-1/0", "r:2,3:0", "a:-2,0,1:-2/0:-1/0", "r:2,-6,-1,3:0", "n:-1:-2,0,1:-2/0:-1/0"]
+NONZERO_POS = ["z:1", "z:2", "q:2/3", "q:5/7", "d:1/1", "d:3/2", "r:-2,0,1:1", "r:-3,0,1:1", "r:-1,-1,1:1", "r:-4,0,0,1:0",
+               "a:-1,3:0/0:1/0", "a:-5,8:1/1:3/2", "r:-3,2:0", "a:-2,0,1:1/0:2/0", "r:2,-6,-1,3:1", "n:-2:-3,0,1:1/0:2/0"]
+
+
+def monomial_zero(rng):
+    """SINGLE-TERM polynomials c * x0^d0 * .. (1-3 variables, some possibly absent) with one variable assigned ZERO in
+    every representation (integer, rational, dyadic, algebraic point 0 from root isolation) under an EVEN or an ODD
+    exponent, the other variables non-zero of both signs (rational, algebraic, rational held as algebraic); also the
+    same terms without any zero (sign = product of the signs under odd exponents) and with the zero at an ABSENT
+    variable (must not make the sign 0).  All variable orders.  (seeded C10-10: 'even powers are positive'.)"""
+    n = rng.choice([1, 2, 2, 3, 3])
+    kind = rng.random()
+    j = rng.randrange(n)                                  # the variable that gets the special value
+    exps = [rng.choice([1, 1, 2, 2, 3, 4]) for _ in range(n)]
+    if n > 1 and rng.random() < 0.25:                    # one of the OTHER variables does not occur
+        i = rng.choice([i for i in range(n) if i != j])
+        exps[i] = 0
+    toks = [rng.choice(NONZERO_NEG if rng.random() < 0.55 else NONZERO_POS) for _ in range(n)]
+    if kind < 0.5:
+        exps[j] = rng.choice([2, 2, 2, 4, 6, 8])          # zero under an even exponent
+        toks[j] = rng.choice(ZERO_TOKENS)
+    elif kind < 0.7:
+        exps[j] = rng.choice([1, 1, 3, 5])                # zero under an odd exponent
+        toks[j] = rng.choice(ZERO_TOKENS)
+    elif kind < 0.8:
+        if n == 1:
+            exps[j] = rng.choice([2, 4])
+            toks[j] = rng.choice(ZERO_TOKENS)
+        else:
+            exps[j] = 0                                   # zero at a variable that does not occur in the term
+            toks[j] = rng.choice(ZERO_TOKENS)
+            if all(e == 0 for e in exps):
+                exps[(j + 1) % n] = rng.choice([1, 2])
+    elif kind < 0.9:
+        exps[j] = rng.choice([2, 4, 6])                   # no zero: negative value under an even exponent
+        toks[j] = rng.choice(NONZERO_NEG)
+    # else: no zero, random exponents
+    if kind < 0.7 and n > 1 and rng.random() < 0.15:      # a second zero
+        i = rng.choice([i for i in range(n) if i != j])
+        toks[i] = rng.choice(ZERO_TOKENS)
+    # keep the reference evaluation cheap: at most two irrational values, moderate exponents on them
+    nirr = 0
+    for i in range(n):
+        if is_alg(toks[i]) and alg_degree(toks[i]) >= 2 and not toks[i].startswith("r:0,"):
+            nirr += 1
+            if nirr > 2:
+                toks[i] = rng.choice(["z:-2", "q:-3/4", "d:7/1", "a:2,3:-1/0:0/0"])
+            elif exps[i] > 4:
+                exps[i] -= 2
+    c = rng.choice([1, -1, 2, -3, 3, 7, -12])
+    return ev(rng, n, {tuple(exps): c}, toks)
+
+
 def er_case(rng):
     n = rng.choice([1, 2, 3, 3])
     toks = []
@@ -713,6 +772,9 @@ def generate(rng, tier):
         c = f(rng)
         if c:
             cases.append(c)
+    # a fixed block AFTER the weighted classes (their random stream is not shifted by it)
+    for _ in range(200 if tier == "quick" else 1200):
+        cases.append(monomial_zero(rng))
     return cases
 
 
@@ -745,7 +807,8 @@ def finding_id(case, c_out, m_out):
 
 RULE = ("seeded structured generator gen/C10.py (corpus first): dependent square roots (true zeros / scaled perturbations / tiny "
         "values), continued-fraction near-zeros, scaled eliminants aimed at the (-L, L) decision, mixed value kinds, "
-        "leading-coefficient killers, dependent cube roots, secretly rational algebraic values, all variable orders; "
+        "leading-coefficient killers, dependent cube roots, secretly rational algebraic values, single-term polynomials with a "
+        "zero value of every representation under even / odd exponents, all variable orders; "
         "internal calls: evaluate_rationals, root_lower_bound, sign_condition_consistent (exhaustive 6 x 7)")
 ASSUMPTIONS = ["polynomials over Z (ctx->K == lp_Z) in at most 3 variables; every variable of the polynomial is assigned a finite value",
                "algebraic values are given by valio.h tokens (k-th real root of an integer polynomial, or polynomial + isolating dyadic interval)"]
